@@ -124,9 +124,20 @@ def run(ctx):
     if not ctx.quick():
         modes += ["--gc every:3", "--gc every:7 --full 1", "--gc never"]
     for mode in modes:
-        runs = common.run_batch(["%s --steps 300000 %s" % (mode, f) for f, _, _ in progs])
+        runs = common.run_batch(["%s --stats --steps 300000 %s" % (mode, f) for f, _, _ in progs])
         for (f, src, exp), r in zip(progs, runs):
             ctx.count_case((src, mode), nontrivial=True)
+            st = r.get("stats_after_full")
+            if st and st.get("string_objects") is not None and st["string_objects"] != st["intern_len"]:
+                # the single-entry-point assumption of the model, observed: every string object the allocator owns after a
+                # full collection is an entry of the intern table (a creation path that bypasses the table shows here even
+                # when the program never compares the string)
+                ctx.cov["impl_vs_spec_failures"] += 1
+                ctx.violation("intern_table", {"kind": "implementation-vs-spec",
+                                               "what": "after a full collection the allocator owns %d string objects but the intern table has %d entries: "
+                                                       "a string was created outside the table (or an entry dangles)" % (st["string_objects"], st["intern_len"]),
+                                               "mode": mode or "default", "program": src, "expected": exp, "status": r["status"], "stats_after_full": st})
+                return
             if r["status"] != "Ok:0" or r["stdout"] != exp:
                 ctx.cov["impl_vs_spec_failures"] += 1
                 ctx.violation("strings", {"kind": "implementation-vs-spec",
@@ -138,7 +149,7 @@ def run(ctx):
     ctx.cov["traces_validated_against_impl"] += len(progs) * len(modes)
     ctx.sample({"program": progs[0][1], "expected": progs[0][2]})
     ctx.assumptions += [
-        "every string allocation goes through Allocator::manage_str (single entry point) — an assumption of the model, exercised but not proved on the code side",
+        "every string allocation goes through Allocator::manage_str (single entry point) — an assumption of the model; on the code side it is observed, not proved: after a forced full collection of every generated program the number of string objects the allocator owns must equal the size of the intern table",
         "the allocator model is hand-written; agreement is checked on the alloc stream",
     ]
 
@@ -151,9 +162,11 @@ def replay(path):
         os.makedirs(os.path.dirname(tmp), exist_ok=True)
         open(tmp, "w").write(r["program"])
         mode = r.get("mode", "")
-        a = common.run_batch(["%s --steps 300000 %s" % ("" if mode == "default" else mode, tmp)])[0]
-        print(a["status"], a["stdout"])
-        return 1 if (a["status"] != "Ok:0" or a["stdout"] != r.get("expected")) else 0
+        a = common.run_batch(["%s --stats --steps 300000 %s" % ("" if mode == "default" else mode, tmp)])[0]
+        st = a.get("stats_after_full") or {}
+        print(a["status"], a["stdout"], {k: st.get(k) for k in ("string_objects", "intern_len")})
+        table_ok = st.get("string_objects") is None or st.get("string_objects") == st.get("intern_len")
+        return 1 if (a["status"] != "Ok:0" or a["stdout"] != r.get("expected") or not table_ok) else 0
     if "ops" in r:
         common.cargo_build(bin="vh_alloc")
         rc, out, err = common.run_lines([common.harness_path(bin="vh_alloc")], r["ops"])
